@@ -248,6 +248,93 @@ Section Proofs.
 
 End Proofs.
 
+(* ---- several indexes: isolation ---------------------------------------------------------- *)
+Section MultiProofs.
+  Variables text key vec : Type.
+  Variable text_eq_dec : forall a b : text, {a = b} + {a <> b}.
+  Variable key_eq_dec : forall a b : key, {a = b} + {a <> b}.
+  Variable P : text -> Prop.
+  Variable indexes : list (index text key vec).
+
+  (* the assumption: indexes whose configurations name the same store agree on key generator
+     and embedding model (distinct models => distinct stores) *)
+  Definition compatible : Prop :=
+    forall a b, In a indexes -> In b indexes -> ix_sid a = ix_sid b ->
+      forall t, ix_kg a t = ix_kg b t /\ ix_emb a t = ix_emb b t.
+
+  Definition all_inj : Prop := forall a, In a indexes -> inj_on text key (ix_kg a) P.
+
+  Definition stores_ok (S : stores key vec) : Prop :=
+    forall a, In a indexes -> consistent text key vec key_eq_dec (ix_kg a) (ix_emb a) P (S (ix_sid a)).
+
+  Lemma consistent_ext : forall kg kg' (emb emb' : text -> vec) s,
+    (forall t, kg t = kg' t /\ emb t = emb' t) ->
+    consistent text key vec key_eq_dec kg emb P s -> consistent text key vec key_eq_dec kg' emb' P s.
+  Proof.
+    intros kg kg' emb emb' s He Hc t v Pt Hg. destruct (He t) as [Hk Hemb].
+    rewrite <- Hk in Hg. rewrite <- Hemb. apply Hc; assumption.
+  Qed.
+
+  Lemma mcall_ok : all_inj -> compatible -> forall S a texts,
+    stores_ok S -> In a indexes -> Forall P texts ->
+    fst (mcall text_eq_dec key_eq_dec S a texts) = map (fun t => Some (ix_emb a t)) texts /\
+    stores_ok (snd (mcall text_eq_dec key_eq_dec S a texts)).
+  Proof.
+    intros Hinj Hcomp S a texts HS Ha HP. unfold mcall. simpl.
+    destruct (wrapper_ok text key vec text_eq_dec key_eq_dec (ix_kg a) (ix_emb a) P (Hinj a Ha) true
+                (S (ix_sid a)) texts HP (HS a Ha)) as [Hr Hc].
+    split; [exact Hr|].
+    intros b Hb. unfold sset. destruct (ix_sid b =? ix_sid a) eqn:E.
+    - apply Nat.eqb_eq in E. eapply consistent_ext; [|exact Hc].
+      intro t. apply Hcomp; auto.
+    - apply HS. exact Hb.
+  Qed.
+
+  Lemma mrun_ok : all_inj -> compatible -> forall calls S,
+    stores_ok S -> Forall (fun c => In (fst c) indexes /\ Forall P (snd c)) calls ->
+    stores_ok (mrun text_eq_dec key_eq_dec S calls).
+  Proof.
+    intros Hinj Hcomp. induction calls as [|[a texts] calls IH]; intros S HS Hall; simpl.
+    - exact HS.
+    - inversion Hall as [|x l [Ha HP] Hrest]; subst. simpl in Ha, HP.
+      apply IH; [|exact Hrest]. apply mcall_ok; assumption.
+  Qed.
+
+  (* C19_cache_isolation *)
+  Theorem multi_correct : all_inj -> compatible -> forall history a texts,
+    Forall (fun c => In (fst c) indexes /\ Forall P (snd c)) history -> In a indexes -> Forall P texts ->
+    fst (mcall text_eq_dec key_eq_dec (mrun text_eq_dec key_eq_dec no_stores history) a texts)
+    = map (fun t => Some (ix_emb a t)) texts.
+  Proof.
+    intros Hinj Hcomp history a texts Hh Ha HP.
+    apply mcall_ok; try assumption. apply mrun_ok; try assumption.
+    intros b _. apply consistent_nil.
+  Qed.
+End MultiProofs.
+
+(* without the assumption: two indexes with one store, one key for the text and different
+   models - the second gets the first model's vector *)
+Theorem multi_shared_store_refuted : forall (text key vec : Type)
+    (text_eq_dec : forall a b : text, {a = b} + {a <> b})
+    (key_eq_dec : forall a b : key, {a = b} + {a <> b})
+    (a b : index text key vec) (t : text),
+  ix_sid a = ix_sid b -> ix_kg a t = ix_kg b t -> ix_emb a t <> ix_emb b t ->
+  fst (mcall text_eq_dec key_eq_dec (mrun text_eq_dec key_eq_dec no_stores [(a, [t])]) b [t])
+  = [Some (ix_emb a t)] /\
+  fst (mcall text_eq_dec key_eq_dec (mrun text_eq_dec key_eq_dec no_stores [(a, [t])]) b [t])
+  <> map (fun t => Some (ix_emb b t)) [t].
+Proof.
+  intros text key vec ted ked a b t Hs Hk Hne.
+  assert (H : fst (mcall ted ked (mrun ted ked no_stores [(a, [t])]) b [t]) = [Some (ix_emb a t)]).
+  { unfold mrun, mcall, sset, no_stores, wrapper, wrap_begin, wrap_end, w_results, w_store, cache_get_list,
+      cache_set_list, td_mem, td_update, store_set, td_set. simpl.
+    rewrite <- Hs. rewrite Nat.eqb_refl. simpl. rewrite <- Hk.
+    destruct (ked (ix_kg a t) (ix_kg a t)) as [_|n]; [|congruence]. simpl.
+    destruct (ted t t) as [_|n]; [|congruence]. simpl.
+    destruct (ted t t) as [_|n]; [|congruence]. reflexivity. }
+  split; [exact H|]. rewrite H. simpl. intro E. inversion E. congruence.
+Qed.
+
 Arguments inj_on {text key} kg P.
 Arguments consistent {text key vec} key_eq_dec kg emb P s.
 Arguments begin_ok {text vec} text_eq_dec emb P texts c u.
